@@ -162,25 +162,7 @@ func (x *fsExec) onIdle() *sched.Action {
 		id := id
 		st := states[id]
 		if st.State == meta.TaskStatePaused && x.resumesLeft[id] > 0 {
-			return &sched.Action{Label: "resume:" + id, Do: func() {
-				x.resumesLeft[id]--
-				x.resumeBusy = true
-				inc := x.cur
-				for ch := range x.rejecting {
-					delete(x.rejecting, ch)
-				}
-				for c := range x.targetDown {
-					delete(x.targetDown, c)
-				}
-				x.ev(fsEvent{Inc: inc.n, Kind: "resume", Key: id, Detail: st.Reason})
-				go func() {
-					_, err := inc.cdc.Resume(&request.ResumeRequest{TaskID: id})
-					if err != nil {
-						x.apiErrs = append(x.apiErrs, fmt.Sprintf("resume %s: %v", id, err))
-					}
-					x.resumeBusy = false
-				}()
-			}}
+			return &sched.Action{Label: "resume:" + id, Do: x.resumeFn(id, st.Reason)}
 		}
 	}
 	// a collection that is to be created while the task runs is created at the first quiescent point at the latest
@@ -198,6 +180,30 @@ func (x *fsExec) onIdle() *sched.Action {
 		}}
 	}
 	return nil
+}
+
+// resumeFn: the API resume of a paused task (at a quiescent point by default; scenarios with EarlyResume also offer it
+// as a deviation right after the pause, while packs of the paused task are still in flight)
+func (x *fsExec) resumeFn(id, reason string) func() {
+	return func() {
+		x.resumesLeft[id]--
+		x.resumeBusy = true
+		inc := x.cur
+		for ch := range x.rejecting {
+			delete(x.rejecting, ch)
+		}
+		for c := range x.targetDown {
+			delete(x.targetDown, c)
+		}
+		x.ev(fsEvent{Inc: inc.n, Kind: "resume", Key: id, Detail: reason})
+		go func() {
+			_, err := inc.cdc.Resume(&request.ResumeRequest{TaskID: id})
+			if err != nil {
+				x.apiErrs = append(x.apiErrs, fmt.Sprintf("resume %s: %v", id, err))
+			}
+			x.resumeBusy = false
+		}()
+	}
 }
 
 // crashQuiet: the final clean restart (not counted as an explored crash)
@@ -228,7 +234,15 @@ func fsExecute(t *testing.T, sc *fsScenario, ctl *sched.Ctl) *fsExec {
 			}
 			return nil
 		}
-		return x.actions()
+		acts := x.actions()
+		if sc.EarlyResume && !x.restarting && !x.resumeBusy && !x.cur.dead && !x.needRestart {
+			for id, st := range x.taskStates() {
+				if st.State == meta.TaskStatePaused && x.resumesLeft[id] > 0 && x.paused[id] {
+					acts = append(acts, sched.Action{Label: "resume-early:" + id, Cost: 1, Do: x.resumeFn(id, st.Reason)})
+				}
+			}
+		}
+		return acts
 	}
 	ctl.OnIdle = x.onIdle
 	ctl.Loop(nil)
@@ -878,6 +892,24 @@ func fsC05Scenarios(thorough bool) []*fsScenario {
 		sc = one("pause-batch2", 2, []fsPack{fpIns(1000), fpIns(1010), fpDel(1020)})
 		sc.Pause = true
 		out = append(out, sc)
+	}
+	// a manual pause of one of two tasks that share a target (the replication entity, its channel manager and the sender
+	// goroutines outlive the pause; packs of the paused task may still be in flight), then its resume
+	{
+		c1 := fsMkColl(101, "c1", "src-dml_0")
+		c2 := fsMkColl(102, "c2", "src-dml_1")
+		c1.Shards[0].Script = fsTail([]fsPack{fpIns(1000), fpInsDel(1010), fpDel(1020), fpIns(1030)}, 1)
+		c2.Shards[0].Script = fsTail([]fsPack{fpIns(1001), fpIns(1011)}, 1)
+		out = append(out, &fsScenario{Name: "pause:2tasks-1target", Colls: []*fsColl{c1, c2}, Tasks: []fsTask{{ID: "t0", URI: fsURI, Coll: "c1"}, {ID: "t1", URI: fsURI, Coll: "c2"}}, MaxCount: 1, Pause: true})
+	}
+	// the same with a source that is ahead of the writer (every pack is delivered as soon as it can be: several packs of
+	// the paused task are in flight) and a resume that may come at once, before the stale packs have been taken off
+	{
+		c1 := fsMkColl(101, "c1", "src-dml_0")
+		c2 := fsMkColl(102, "c2", "src-dml_1")
+		c1.Shards[0].Script = fsTail([]fsPack{fpIns(1000), fpInsDel(1010), fpDel(1020), fpIns(1030)}, 1)
+		c2.Shards[0].Script = fsTail([]fsPack{fpIns(1001)}, 1)
+		out = append(out, &fsScenario{Name: "pause:2tasks-1target-eager", Colls: []*fsColl{c1, c2}, Tasks: []fsTask{{ID: "t0", URI: fsURI, Coll: "c1"}, {ID: "t1", URI: fsURI, Coll: "c2"}}, MaxCount: 1, Pause: true, EagerSource: true, EarlyResume: true})
 	}
 	// a drop replayed: its checkpoints are frozen
 	{
